@@ -4,6 +4,7 @@
 -/
 import Genshi.Lemmas.I18nTrim
 import Genshi.Model.I18nChoose
+import Genshi.Lemmas.I18n
 namespace Genshi.I18n
 open Genshi
 
@@ -104,5 +105,52 @@ theorem chooseCall_identity (pre mid post : List TEvent) (ts tp : QName) (as ap 
       simpa [choosePass2, Except.map, pure, Except.pure] using this
     rw [hpostmap]
     simp [Except.map, pure, Except.pure, List.append_assoc]
+
+end Genshi.I18n
+
+namespace Genshi.I18n
+open Genshi
+
+/-- for streams without SUB events, "same up to directive order" is equality -/
+theorem sameList_eq_of_noSub : ∀ (s s' : List TEvent), (s.all fun e => match e with | .sub _ _ => false | _ => true) = true →
+    sameList s s' = true → s' = s
+  | [], [], _, _ => rfl
+  | [], _ :: _, _, h => by simp [sameList] at h
+  | _ :: _, [], _, h => by simp [sameList] at h
+  | e :: es, e' :: es', hn, h => by
+      simp only [List.all_cons, Bool.and_eq_true] at hn
+      simp only [sameList, Bool.and_eq_true] at h
+      have he : e' = e := by
+        cases e <;> simp_all [sameEv]
+      rw [he, sameList_eq_of_noSub es es' hn.2 h.2]
+
+mutual
+  theorem MNode.flatten_noSub : ∀ (n : MNode), (n.flatten.all fun e => match e with | .sub _ _ => false | _ => true) = true
+    | .text _ => rfl
+    | .expr _ _ _ => rfl
+    | .elem _ _ ks => by
+        simp only [MNode.flatten, List.all_cons, List.all_append, List.all_nil, Bool.and_true, Bool.true_and]
+        exact flattenM_noSub ks
+  theorem flattenM_noSub : ∀ (ns : List MNode), ((flattenM ns).all fun e => match e with | .sub _ _ => false | _ => true) = true
+    | [] => rfl
+    | n :: ns => by
+        simp only [flattenM, List.all_append, Bool.and_eq_true]
+        exact ⟨MNode.flatten_noSub n, flattenM_noSub ns⟩
+end
+
+/-- **identity_transparent, pass and directive together**: the translation pass under the
+    identity catalogue followed by `MsgDirective.__call__` under the identity catalogue -/
+theorem pass_then_msg_identity (cfg : Cfg) (ctx : Ctx) (ta : Bool) (t : QName) (a : TAttrs) (F : List MNode)
+    (extra : List Str) (hc : cleanM F = true) (hna : deepNoAdjM F = true) (hnd : (namesM F).Nodup)
+    (hattr : cleanList cfg (.start t a :: (flattenM F ++ [.end_ t])) = true) :
+    msgGenerate (namesM F ++ extra) (fun s => s)
+        (trList cfg Catalog.id ctx false ta 0 (.start t a :: (flattenM F ++ [.end_ t]))) =
+      .ok (.start t a :: (coalesce (flattenM (trimF F)) ++ [.end_ t])) := by
+  have hns : ((TEvent.start t a :: (flattenM F ++ [.end_ t])).all fun e => match e with | .sub _ _ => false | _ => true) = true := by
+    simp only [List.all_cons, List.all_append, List.all_nil, Bool.and_true, Bool.true_and]
+    exact flattenM_noSub F
+  have hs := trList_id_same cfg ctx false ta 0 _ hattr
+  rw [sameList_eq_of_noSub _ _ hns hs]
+  exact msgGenerate_identity_attr t a F extra hc hna hnd
 
 end Genshi.I18n
